@@ -129,8 +129,25 @@ impl From<Instant> for Uptime {
     }
 }
 
+/// Verification hook (clock seam): the instant supplied by the harness, if any.
+#[cfg(feature = "verif-hooks")]
+fn __verif_now() -> Option<std::time::SystemTime> {
+    use std::time::{Duration, UNIX_EPOCH};
+    tracing_core::__verif::now().map(|(secs, nanos)| {
+        if secs >= 0 {
+            UNIX_EPOCH + Duration::new(secs as u64, nanos)
+        } else {
+            UNIX_EPOCH - Duration::new(secs.unsigned_abs(), 0) + Duration::new(0, nanos)
+        }
+    })
+}
+
 impl FormatTime for SystemTime {
     fn format_time(&self, w: &mut Writer<'_>) -> fmt::Result {
+        #[cfg(feature = "verif-hooks")]
+        if let Some(now) = __verif_now() {
+            return write!(w, "{}", datetime::DateTime::from(now));
+        }
         write!(
             w,
             "{}",
